@@ -41,6 +41,11 @@ def check(ctx, report):
     report.rule('C10.R6', 'GREASE classification equals RFC 8701 (tables and decision)')
     strict_decoding(ctx, report)
     variant_order(ctx, report, 'C10.R8')
+    # the number a code point is looked up with is the unsigned value of its bytes, for every width the factories use (the 3 byte
+    # SSL 2.0 cipher kinds included): the width / byte order tabulation of the numeric primitives (shared with C11.R1)
+    registry_names_exact(ctx, report)
+    from .c11 import numeric_widths_shared
+    numeric_widths_shared(ctx, report, 'C10.R9', 'code points are read and written as the unsigned big-endian value of their bytes, for every width')
     grease_classification(ctx, report, 'C10.R6')
     # ---- R1
     n_enum = 0
@@ -103,6 +108,80 @@ def used_by_repo(model, c):
             if b[0] == 'from' and b[2] == c.name:
                 return True
     return False
+
+
+def registry_names_exact(ctx, report, RULE='C10.R10'):
+    """name-lists over a registry of string codes (the SSH algorithm vectors): ``get_param()`` of every concrete vector class
+    evaluated (sa.miniexec).  The item class handed to the text list primitive is the registry class itself - its names are
+    then matched by the registry's exact lookup (C10.R2 decides that one) - or a function; a function is evaluated on every
+    registered name (it has to give that member) and on the case variants of every registered name that are not registered
+    themselves (it has to refuse them: an unknown name is kept as it was written, never turned into a known one)"""
+    from ..miniexec import ClassRef, Evaluator, EnumVal, Obj, Raised, Unsupported, class_call_hook
+    model = ctx.model
+    report.rule(RULE, 'names of string coded registries are matched exactly: an unknown name is never decoded as a registered one')
+    base = model.try_cls('VectorString')
+    if base is None:
+        report.error('%s: VectorString vanished' % RULE)
+        return
+    n = 0
+    for c in model.all_subclasses(base):
+        gp = c.resolve('get_param')
+        if c.abstract_methods or gp is None or gp.abstract:
+            continue
+
+        def extra(node, ev):
+            d = ast.unparse(node.func)
+            if d.startswith('VectorParam') or d.endswith('.__init__'):
+                return Obj(**{k.arg: ev.ev(k.value) for k in node.keywords if k.arg})
+            return NotImplemented
+        hook = class_call_hook(c, extra, model)
+        try:
+            prm = Evaluator({'cls': 'cls'}, hook, None).function(gp.node)
+        except (Unsupported, Raised):
+            continue
+        item_class = getattr(prm, 'item_class', None)
+        if isinstance(item_class, ClassRef):
+            if getattr(item_class.info, 'enum_members', None):
+                n += 1
+                report.count(RULE)
+            continue
+        if not callable(item_class):
+            continue
+        # a converter function: which registry does it serve?
+        gic = c.resolve('get_item_class')
+        try:
+            registry = Evaluator({'cls': 'cls'}, hook, None).function(gic.node) if gic is not None and not gic.abstract else None
+        except (Unsupported, Raised):
+            registry = None
+        if not isinstance(registry, ClassRef) or not getattr(registry.info, 'enum_members', None):
+            report.undecided.append('%s: %s hands a function to the list primitive and names no registry class' % (RULE, c.name))
+            continue
+        n += 1
+        members = list(registry)
+        codes = {m.value.code: m for m in members if isinstance(getattr(m.value, 'code', None), str)}
+        bad = []
+        try:
+            for code, m in sorted(codes.items()):
+                report.count(RULE)
+                try:
+                    got = item_class(code)
+                    if got is not m:
+                        bad.append('the registered name %r is decoded as %r' % (code, got))
+                except Raised as e:
+                    bad.append('the registered name %r is refused (%s)' % (code, e.what[:40]))
+                for variant in {code.upper(), code.title(), code.swapcase(), code + ' '} - set(codes):
+                    try:
+                        got = item_class(variant)
+                        bad.append('%r, which is not a registered name, is decoded as %r' % (variant, got))
+                    except Raised:
+                        pass
+        except Unsupported as e:
+            report.undecided.append('%s: the name converter of %s left the subset the evaluation understands (%s)' % (RULE, c.name, e))
+            continue
+        if bad:
+            report.add(RULE, '%s@names' % c.construct, '%d of the evaluated names: %s - the list is re-encoded with other names than it was parsed from' % (len(bad), bad[0]))
+    if n < 3:
+        report.error('%s: only %d registry name-lists found (anchor moved)' % (RULE, n))
 
 
 def decoders_by_evaluation(ctx, report):
